@@ -200,6 +200,7 @@ func runC05(ctx *core.Ctx, idx int) *core.Result {
 	r := ctx.Rand("c05", idx)
 	var c *gen.Change
 	var srcs, names []string
+	guardFails := map[int]bool{}
 	if idx%3 != 2 {
 		c = corpusChange(idx / 3 * 2)
 		if idx%3 == 1 {
@@ -235,14 +236,24 @@ func runC05(ctx *core.Ctx, idx int) *core.Result {
 		g := gen.NewG(r)
 		g.Comment = true
 		c = g.RandomChangeWide()
+		pkgGuard := idx%6 == 2
 		for f := 0; f < 4; f++ {
 			plants, _ := g.InstancePlants(c, 1+r.Intn(10), r.Intn(3))
 			hdr := ""
 			if r.Intn(2) == 0 {
 				hdr = "//go:build linux || darwin\n\n"
 			}
-			srcs = append(srcs, g.File(gen.FileOpts{Header: hdr, Decls: 20 + r.Intn(40), Plants: plants}))
+			pkg := "p"
+			if pkgGuard && f%2 == 1 {
+				pkg = "p_test" // another package: a change guarded by "package p" must leave the file alone
+				guardFails[len(srcs)] = true
+			}
+			srcs = append(srcs, g.File(gen.FileOpts{Header: hdr, Pkg: pkg, Decls: 20 + r.Intn(40), Plants: plants}))
 			names = append(names, fmt.Sprintf("generated-%d-%d", idx, f))
+		}
+		if pkgGuard {
+			c.Guards = []gen.Line{gen.L(' ', "package p"), gen.L(' ', "")}
+			res.Ob("patches-with-package-guard", 1)
 		}
 	}
 	pat, err := c.RefPattern()
@@ -266,6 +277,13 @@ func runC05(ctx *core.Ctx, idx int) *core.Result {
 	for pi, runs := range paths {
 		for i, src := range srcs {
 			res.Evals++
+			if guardFails[i] {
+				if runs[i].Pan == "" && runs[i].Err == "" && runs[i].Out != src {
+					res.Violate("C05/file-of-another-package-changed", fmt.Sprintf("[%s path, %s, file %s] the patch is guarded by 'package p', the file is in package p_test", pnames[pi], c.Schema, names[i]), replayFiles(pt, src, runs[i].Out))
+				}
+				res.Ob("files-of-another-package", 1)
+				continue
+			}
 			class, detail, sited, clean, inc := judgeOutside(pat, src, runs[i], addedImports(c))
 			if inc != "" {
 				res.Inconcl++
